@@ -108,7 +108,7 @@ def random_cases(draw):
         g = draw(games.any_games(max_states=8))
         route = "component"
     else:
-        g = draw(games.stopping_games(min_inner=2, max_inner=9, max_sinks=3))
+        g = draw(games.stopping_games(min_inner=2, max_inner=9, max_sinks=3, dup_names=True))
         route = draw(st.sampled_from(("component", "pipeline", "assigned")))
     return dict(game=g, route=route)
 
